@@ -134,6 +134,8 @@ func (cb *CanonicalBlock) UnmarshalCbor(r io.Reader) error {
 		return err
 	} else if crcT > uint64(CRC32) {
 		return fmt.Errorf("unknown CRCType %d", crcT)
+	} else if (blockLen == 6) != (CRCType(crcT) != CRCNo) {
+		return fmt.Errorf("CRCType %d does not match an array of %d elements", crcT, blockLen)
 	} else {
 		cb.CRCType = CRCType(crcT)
 	}
